@@ -13,7 +13,7 @@ use serde::{Deserialize, Serialize};
 use std::collections::BTreeMap;
 use std::time::Instant;
 
-pub const RULE: &str = "cases = one accepted graph + kinematics, 4 x-space points and a history of 1..40 operations on a shared sampler: SampleX(point, return_metadata, print_debug_info, stability None/Some(1e300)), SampleRng(seed, flags), SampleNear(point with one coordinate moved by 1..8 ulps, flags), UseClone, UseSerdeCopy (continue with a JSON round-tripped copy), Burst(t<=8 threads x m<=6 samples on the shared sampler). model = map (point, stability setting) -> first observed bit pattern of (loop_momenta,u,v,u_trop,v_trop,jacobian | error kind); invariant after every step: every observation equals the model, for all combinations of return_metadata x print_debug_info. generate_sample_from_rng: the rng is cloned, get_dimension() numbers are drawn from the clone, the result must equal the x-space call on those numbers and both rngs must be in the same state afterwards. cross-process: the same graphs/points are sampled in a freshly started process (different hash seeds) and compared bit for bit. non-trivial = history with >= 2 distinct flag settings and a thread burst; distinct = distinct case encodings";
+pub const RULE: &str = "cases = one accepted graph + kinematics, 4 x-space points and a history of 1..40 operations on a shared sampler: SampleX(point, return_metadata, print_debug_info, stability None/Some(1e300)), SampleRng(seed, flags), SampleNear(point with one coordinate moved by 1..8 ulps, flags), UseClone, UseSerdeCopy (continue with a JSON round-tripped copy), Rebuild (continue with a sampler built again from the same graph), Burst(t<=8 threads x m<=6 samples on the shared sampler). model = map (point, stability setting) -> first observed bit pattern of (loop_momenta,u,v,u_trop,v_trop,jacobian | error kind); invariant after every step: every observation equals the model, for all combinations of return_metadata x print_debug_info. generate_sample_from_rng: the rng is cloned, get_dimension() numbers are drawn from the clone, the result must equal the x-space call on those numbers and both rngs must be in the same state afterwards. cross-process: the same graphs/points are sampled in a freshly started process (different hash seeds) and compared bit for bit. non-trivial = history with >= 2 distinct flag settings and a thread burst; distinct = distinct case encodings";
 
 #[derive(Clone, Debug, Serialize, Deserialize)]
 pub enum Op {
@@ -24,6 +24,8 @@ pub enum Op {
     SampleNear { pt: usize, coord: usize, ulps: i64, meta: bool, debug: bool },
     UseClone,
     UseSerdeCopy,
+    /// continue with a sampler built again from the same graph (fresh hash seeds, as another process would)
+    Rebuild,
     Burst { threads: usize, per: usize, meta: bool, debug: bool },
 }
 #[derive(Clone, Debug, Serialize, Deserialize)]
@@ -40,7 +42,8 @@ pub fn gen_case(t: &mut Tape, tier: Tier) -> Option<Case> {
     let points: Vec<Vec<f64>> = (0..4).map(|i| if i == 0 { p.x.clone() } else { gen::gen_point(t, &p.g, if i == 3 { &gen::CORNERS } else { &gen::MODERATE }).0 }).collect();
     let n = t.range(1, 40);
     let ops = (0..n)
-        .map(|_| match t.weighted(&[0.4, 0.13, 0.07, 0.06, 0.17, 0.17]) {
+        .map(|_| match t.weighted(&[0.4, 0.13, 0.07, 0.06, 0.17, 0.17, 0.08]) {
+            6 => Op::Rebuild,
             5 => {
                 let dim = gen::dimension(&p.g);
                 // half of the time the gamma coordinate (the one scalar routine with its own iteration), else any
@@ -149,6 +152,12 @@ fn check_d<const D: usize>(c: &Case, ctx: &mut Ctx) -> Result<(), Failure> {
             }
             Op::UseClone => {
                 cur = cur.clone();
+            }
+            Op::Rebuild => {
+                cur = match sut::build::<D>(g, p.kin.sig.clone()) {
+                    Ok(s) => s,
+                    Err(e) => fail!("rebuild-failed", "step {step}: building the same graph again failed: {e:?}"),
+                };
             }
             Op::UseSerdeCopy => {
                 let txt = serde_json::to_string(&cur).map_err(|e| Failure::new("serialise-failed", e.to_string()))?;
